@@ -98,6 +98,39 @@ def crafted_problem():
     return pr
 
 
+def crafted_invariant_problem():
+    """state invariants couple fluents that no single action reads: `not p(x) or q` -- an instance writing p(x) and one writing q touch
+    different fluents, yet their relative order decides whether the invariant holds in between"""
+    from unified_planning.shortcuts import Problem, Fluent, BoolType, IntType, UserType, Object, InstantaneousAction, Not, Or, LE
+    L = UserType("L")
+    pr = Problem("crafted_deorder_invariant")
+    l1, l2 = Object("l1", L), Object("l2", L)
+    pr.add_objects([l1, l2])
+    p, q = Fluent("p", BoolType(), x=L), Fluent("q", BoolType())
+    n, m = Fluent("n", IntType(0, 4)), Fluent("m", IntType(0, 4))
+    pr.add_fluent(p, default_initial_value=False)
+    pr.add_fluent(q, default_initial_value=False)
+    pr.add_fluent(n, default_initial_value=0)
+    pr.add_fluent(m, default_initial_value=2)
+    pr.add_state_invariant(Or(Not(p(l1)), q()))
+    pr.add_state_invariant(LE(n(), m()))
+    setp = InstantaneousAction("setp", x=L)
+    setp.add_effect(p(setp.parameter("x")), True)
+    setq = InstantaneousAction("setq")
+    setq.add_effect(q(), True)
+    clrq = InstantaneousAction("clrq")
+    clrq.add_effect(q(), False)
+    clrp = InstantaneousAction("clrp", x=L)
+    clrp.add_effect(p(clrp.parameter("x")), False)
+    incn = InstantaneousAction("incn")
+    incn.add_increase_effect(n(), 2)
+    incm = InstantaneousAction("incm")
+    incm.add_increase_effect(m(), 2)
+    for a in (setp, setq, clrq, clrp, incn, incm):
+        pr.add_action(a)
+    return pr
+
+
 def bounded(tier, seed):
     import networkx as nx
     from unified_planning.plans import SequentialPlan, ActionInstance, PlanKind
@@ -106,6 +139,7 @@ def bounded(tier, seed):
     feats = {"objfluent": 0.0, "max_actions": 3, "undefined": 0.0, "forall_effects": 0.5, "conditional": 0.6, "numeric": 0.4}
     def problem_stream():
         yield "crafted", crafted_problem()
+        yield "crafted-invariant", crafted_invariant_problem()
         yield from SC.problems(seed + 41, nprob, features=feats)
     for s, pr in problem_stream():
         gas = seqsem.ground_actions(pr)
@@ -113,7 +147,7 @@ def bounded(tier, seed):
         init = seqsem.initial_state(pr)
         # valid plan prefixes by DFS on the reference semantics (no goal requirement: executability + same final state)
         plans = []
-        if s == "crafted":           # exhaustive: every executable plan of 2..3 instances
+        if isinstance(s, str):       # crafted problems: exhaustive: every executable plan of 2..3 instances
             for L_ in (2, 3):
                 for cand in itertools.product(gas, repeat=L_):
                     st_ = init
@@ -140,7 +174,7 @@ def bounded(tier, seed):
                     continue
                 if s2 is not None:
                     dfs(prefix + [(a, ps)], s2)
-        if s != "crafted":
+        if not isinstance(s, str):
             dfs([], init)
         for plan, final in plans:
             ais = [ActionInstance(a, tuple(ps)) for a, ps in plan]
